@@ -290,8 +290,8 @@ def check_sort(prog):
                 if ret not in (NUM, "jrsonnet_interner::IStr", "jrsonnet_evaluator::val::StrValue"):
                     problems.append("%s keyed on %s (not NumValue / string content)" % (short_path(fn), ret))
             else:
-                callees = {(tt.get("res") or tt.get("fn") or "") for bb, tt in cl.calls()}
-                if not any(c == OPS + "evaluate_compare_op" for c in callees):
+                # directly, or through a local comparator function shared by the sort paths
+                if not prog.reaches_call(cl.path, lambda c: c == OPS + "evaluate_compare_op", depth=1):
                     problems.append("%s comparator does not call evaluate_compare_op" % short_path(fn))
             if name.endswith("sort_keyf") and "unstable" in fn:
                 problems.append("keyed sort uses an unstable sort (%s): std.sort with keyF must be stable" % short_path(fn))
